@@ -8,6 +8,7 @@ import (
 	"io"
 	"math/rand"
 	"os"
+	"runtime"
 	"strings"
 	"time"
 
@@ -241,11 +242,14 @@ func (s *site) wholeAudit(st blobserver.Storage, rng *rand.Rand, must map[blob.R
 		}
 		done[f.WholeRef] = true
 		n := int64(len(f.Content))
-		offs := []int64{0, 1, n / 2, n - 1, n}
+		offs := []int64{0, n}
+		cand := []int64{1, n / 2, n - 1, n/2 + 1}
 		for i := 0; i < 3 && len(f.Chunks) > 1; i++ {
 			c := f.Chunks[1+rng.Intn(len(f.Chunks)-1)]
-			offs = append(offs, c.Off, c.Off-1, c.Off+1)
+			cand = append(cand, c.Off, c.Off-1, c.Off+1)
 		}
+		rng.Shuffle(len(cand), func(i, j int) { cand[i], cand[j] = cand[j], cand[i] })
+		offs = append(offs, cand[:4]...)
 		served, missing := 0, 0
 		for _, off := range offs {
 			if off < 0 || off > n {
@@ -253,12 +257,13 @@ func (s *site) wholeAudit(st blobserver.Storage, rng *rand.Rand, must map[blob.R
 			}
 			var size int64
 			var openErr, readErr error
-			var got []byte
+			var got int64
+			same := true
 			okT := ev.WithTimeout(120*time.Second, func() {
 				var rc io.ReadCloser
 				rc, size, openErr = wf.OpenWholeRef(f.WholeRef, off)
 				if openErr == nil {
-					got, readErr = io.ReadAll(rc)
+					got, same, readErr = compareStream(rc, f.Content[off:])
 					rc.Close()
 				}
 			})
@@ -269,14 +274,14 @@ func (s *site) wholeAudit(st blobserver.Storage, rng *rand.Rand, must map[blob.R
 			}
 			switch {
 			case openErr == nil && readErr != nil:
-				s.viol("wholeref/read-error/"+s.tail(), fmt.Sprintf("OpenWholeRef(%v,%d) opened, then reading failed after %d bytes: %v", f.WholeRef, off, len(got), readErr))
+				s.viol("wholeref/read-error/"+s.tail(), fmt.Sprintf("OpenWholeRef(%v,%d) opened, then reading failed after %d bytes: %v", f.WholeRef, off, got, readErr))
 			case openErr == nil:
 				served++
 				if size != n {
 					s.viol("wholeref/size/"+s.tail(), fmt.Sprintf("OpenWholeRef(%v,%d) reports whole size %d, file has %d", f.WholeRef, off, size, n))
 				}
-				if !bytes.Equal(got, f.Content[off:]) {
-					s.viol("wholeref/content/"+s.tail(), fmt.Sprintf("OpenWholeRef(%v,%d) returned %d bytes, want the %d bytes of the file from that offset (content differs)", f.WholeRef, off, len(got), n-off))
+				if !same {
+					s.viol("wholeref/content/"+s.tail(), fmt.Sprintf("OpenWholeRef(%v,%d) returned %d bytes, want the %d bytes of the file from that offset (content or length differs)", f.WholeRef, off, got, n-off))
 				}
 			case errors.Is(openErr, os.ErrNotExist):
 				missing++
@@ -294,6 +299,36 @@ func (s *site) wholeAudit(st blobserver.Storage, rng *rand.Rand, must map[blob.R
 			s.r.Count("wholeref_notexist", 1)
 		}
 	}
+}
+
+// compareStream reads r to its end and compares it with want without buffering everything.
+func compareStream(r io.Reader, want []byte) (n int64, same bool, err error) {
+	buf := make([]byte, 256<<10)
+	same = true
+	for {
+		k, rerr := r.Read(buf)
+		if k > 0 {
+			if same {
+				if int64(len(want)) < n+int64(k) || !bytes.Equal(buf[:k], want[n:n+int64(k)]) {
+					same = false
+				}
+			}
+			n += int64(k)
+		}
+		if rerr == io.EOF {
+			break
+		}
+		if rerr != nil {
+			return n, same, rerr
+		}
+		if k == 0 {
+			runtime.Gosched()
+		}
+	}
+	if n != int64(len(want)) {
+		same = false
+	}
+	return n, same, nil
 }
 
 // zipOf returns the validation of one blob of large; a zip seen for the first time in the
